@@ -756,6 +756,16 @@ def campaign_hashseed_lists(ck: Check, lab: Lab, cases: list[dict], title: str, 
                         if outcome(a) != outcome(b):
                             small, diff = cd, first_diff(a or {}, b or {})
                             break
+                cands = detsets.shrink_keywords(small) if small is not c else []
+                for j, cd in enumerate(cands):   # … then without the keywords it does not take (fewest first)
+                    cd["id"] = f"{c['id']}k{j}"
+                rr = pmap(lambda cs: lab.run("hs-min", [strip(cd) for cd in cands], seed=cs, cwd=cwd, listing="sorted"), pair) if cands else []
+                if cands and not any("crash" in r for r in rr):
+                    for cd in cands:
+                        a, b = rr[0]["results"].get(cd["id"]), rr[1]["results"].get(cd["id"])
+                        if outcome(a) != outcome(b):
+                            small, diff = cd, first_diff(a or {}, b or {})
+                            break
             ck.fail({"oracle": "differential", "entry": "generate", "factor": "hashseed", "input": "list-keywords", "same_basename": False,
                      "input_file_type": c["input_file_type"], "mixed_types": False, "family": c["family"].split(":")[0]},
                     {"kind": "differential", "case": strip(small), "dir_files": None, "history": None},
@@ -1129,7 +1139,7 @@ def run(ck: Check) -> None:
     lab = Lab()
     try:
         campaign_listing_corpus(ck, lab)
-        campaign_hashseed_lists(ck, lab, detsets.quick_family(ck.rng.fork("list-keywords"), e2e.MODEL_KINDS, 1 if quick else 8), LIST_TITLE, chunks=3 if quick else 12)
+        campaign_hashseed_lists(ck, lab, detsets.quick_family(ck.rng.fork("list-keywords"), e2e.MODEL_KINDS, 1 if quick else 8), LIST_TITLE, chunks=2 if quick else 12)
         campaign_history_pairs(ck, lab, 16 if quick else 100, fresh_each=not quick)
         campaign_differential(ck, lab, 60 if quick else 400, 6 if quick else 24, [0, 1, 2, 3] if quick else [0, 1, 2, 3, 4, 5, "random", 7])
         campaign_projects(ck, lab, 16 if quick else 90, 5 if quick else 12)
